@@ -1,7 +1,7 @@
 (** C05 — GCV selection is optimal on the grid; robust mode never degenerates. Statements only. *)
 From Coq Require Import ZArith Reals Lra List.
 From HDC Require Import Base.Prelude Base.Ops Model.Ws2d Model.Smoothers Model.VCurve Model.Gcv
-     Proofs.SmoothersProofs Proofs.GcvProofs.
+     Proofs.SmoothersProofs Proofs.GcvProofs Proofs.Ws2dIndex Proofs.RSums Proofs.Penalty Proofs.Ws2dReal Proofs.GcvRobust.
 
 (** the reported lambda is drawn from 10**srange (or is the sentinel's 0 when no score is below 1e15) — any carrier *)
 Theorem C05_lopt_in_grid : forall (F : Type) (O : Ops F) (K : gconsts) y nd llas z lopt,
@@ -44,3 +44,16 @@ Theorem C05_placeholder_indep : forall (F : Type) (O : Ops F) (K : gconsts),
   forall p, ws2dwcvp O K y1 nd1 p llas robust = ws2dwcvp O K y2 nd2 p llas robust.
 Proof. exact @wcv_placeholder_indep. Qed.
 Print Assumptions C05_placeholder_indep.
+
+(** robust mode never degenerates: whatever the data, after the (at most four) bisquare reweightings the weights of the final solve
+    are non-negative and two valid cells keep a positive weight, and - by C01 - the band of ws2dwcv is the unique minimiser of the
+    penalised least-squares objective with those weights at the reported lambda *)
+Theorem C05_robust_never_degenerates : forall (K : gconsts (F := R)) (y : list R) nd llas yv rwt lopt,
+  wcv_core OpsR K y nd llas true = Some (yv, rwt, lopt) ->
+  length rwt = length y /\ length yv = length y /\ (4 <= length y)%nat /\
+  (forall i, (0 <= i < Z.of_nat (length y))%Z -> 0 <= Wk rwt i) /\
+  (exists p q, (0 <= p < q)%Z /\ (q < Z.of_nat (length y))%Z /\ 0 < Wk rwt p /\ 0 < Wk rwt q) /\
+  (0 < lopt -> forall z' : Z -> R,
+     Sobj (length yv) (Wk rwt) (Yk yv) lopt (Zk yv rwt lopt) <= Sobj (length yv) (Wk rwt) (Yk yv) lopt z').
+Proof. exact wcv_robust_never_degenerates. Qed.
+Print Assumptions C05_robust_never_degenerates.
